@@ -17,6 +17,7 @@ import (
 	"reflect"
 	"strconv"
 	"strings"
+	"sync/atomic"
 	"time"
 	"unsafe"
 
@@ -174,10 +175,14 @@ type walkerResolver struct {
 	mode  string // "tag": reflect.StructOf with tags; "fixed": walkerFixedTypes; "gen": walkerGenTypes; "plain": StructOf without tags
 	named []reflect.Type
 	memo  map[int]reflect.Type
+	wide  bool // tag mode: the first type gets 258 rule-less fields in front of its own (field indices beyond one byte)
 }
+
+var walkerWideNo int32
 
 func walkerNewResolver(scn *walkerScn, mode string) (*walkerResolver, error) {
 	r := &walkerResolver{scn: scn, mode: mode, memo: map[int]reflect.Type{}}
+	r.wide = mode == "tag" && atomic.AddInt32(&walkerWideNo, 1)%17 == 0
 	switch mode {
 	case "fixed":
 		if len(scn.Types) != 1 {
@@ -219,6 +224,13 @@ func (r *walkerResolver) structType(i int) reflect.Type {
 		// a rule-less time.Time field in front of the declared fields: it is never validated and must not shift
 		// anything (values are set by field name in this mode)
 		fs = append([]reflect.StructField{{Name: "Wdecoy", Type: walkerTimeType}}, fs...)
+		if r.wide && i == 1 {
+			pads := make([]reflect.StructField, 258)
+			for k := range pads {
+				pads[k] = reflect.StructField{Name: fmt.Sprintf("Wp%03d", k), Type: reflect.TypeOf(int8(0))}
+			}
+			fs = append(pads, fs...)
+		}
 	}
 	t := reflect.StructOf(fs)
 	r.memo[i] = t
